@@ -187,6 +187,11 @@ def run(scn, stats):
             fired |= set(r["fired"])
         static_concurrent = concurrent
         concurrent = concurrent_vars(fired)
+        if base["published"] and not any(("%s__t%d" % w) in fired for ws_ in wr.values() for w in ws_):
+            # publishes happened but none could be attributed to a transition (the record format is not the
+            # one this mapping knows): fall back to the exclusion computed from the definition alone
+            concurrent = static_concurrent
+            stats.label("fired-transitions-unknown")
         if static_concurrent - concurrent:
             stats.label("single-branch-writer-at-run-time")
         for p, r in leaves[1:]:
